@@ -424,6 +424,8 @@ def cap_rule(index, ctx, cls, fwd):
 def stored_is_returned_rule(ctx, cls):
     """R2 (second half): what the optimiser stores for reuse is what it hands back — `self.prvs_alpha = X ... return Y` must name the same value."""
     for f in cls.methods.values():
+        if f.name == "forward":
+            continue  # forward hands back the tensor conversion of the weights; that the reuse path reads the stored field is decided with the schedule rules
         stores_ = [s_ for s_ in ast.walk(f.node) if isinstance(s_, ast.Assign) and len(s_.targets) == 1 and self_attr(s_.targets[0]) == "prvs_alpha" and f.name not in ("__init__", "reset")]
         rets = [r for r in ast.walk(f.node) if isinstance(r, ast.Return) and r.value is not None]
         if not stores_ or not rets:
@@ -435,6 +437,138 @@ def stored_is_returned_rule(ctx, cls):
         ctx.require(same, "R2", f"{f.short}: the weights stored for reuse are the weights returned", f"`{norm_text(last)}` and `return {norm_text(rets[-1].value)}`",
                     f"`{norm_text(last)}` stores one value and `return {norm_text(rets[-1].value)}` hands back another: the calls that reuse the stored weights do not return what the recomputing call returned",
                     f.loc(last))
+
+
+class _ClsView:
+    """The weighting class with its state object flattened (see flatten_state_object): same interface as ClassInfo for what this module uses."""
+
+    def __init__(self, cls, methods):
+        self._cls, self.methods = cls, methods
+
+    def lookup(self, name):
+        if name in self.methods:
+            return (self, self.methods[name])
+        r = self._cls.lookup(name)
+        return r
+
+    def __getattr__(self, name):
+        return getattr(self._cls, name)
+
+
+def flatten_state_object(index, cls):
+    """`self.S = D(args)` in BOTH __init__ and reset(), D a small class of the same module (a dataclass, or a class with a plain __init__) holding the mutable
+    fields: the methods are read as if the fields of S were attributes of the weighting itself — `self.S.f` and `alias.f` (after `alias = self.S`) become
+    `self.f`, and the statement `self.S = D(args)` becomes the field initialisations D performs. Returns a view of the class, or the class itself."""
+    import copy
+    import dataclasses
+
+    ini, rst = cls.methods.get("__init__"), cls.methods.get("reset")
+    if ini is None or rst is None:
+        return cls
+
+    def holder_stmt(fn_node):
+        out = [s_ for s_ in ast.walk(fn_node) if isinstance(s_, ast.Assign) and len(s_.targets) == 1 and self_attr(s_.targets[0]) and isinstance(s_.value, ast.Call)
+               and isinstance(s_.value.func, ast.Name) and s_.value.func.id in cls.module.classes]
+        return out
+
+    hi, hr = holder_stmt(ini.node), holder_stmt(rst.node)
+    cand = [(a, b) for a in hi for b in hr if self_attr(a.targets[0]) == self_attr(b.targets[0]) and a.value.func.id == b.value.func.id]
+    if len(cand) != 1:
+        return cls
+    S = self_attr(cand[0][0].targets[0])
+    D = cls.module.classes[cand[0][0].value.func.id]
+    is_dc = any("dataclass" in ast.unparse(d) for d in D.node.decorator_list)
+    fields = []  # (name, expr using D's own `self.x` / init parameter names)
+    params = []
+    if is_dc:
+        for st in D.node.body:
+            if isinstance(st, ast.AnnAssign) and isinstance(st.target, ast.Name):
+                v = st.value
+                if v is None:
+                    params.append(st.target.id)
+                    fields.append((st.target.id, ast.Name(id=st.target.id, ctx=ast.Load())))
+                elif isinstance(v, ast.Call) and norm_text(v.func).split(".")[-1] == "field":
+                    kw = {k.arg: k.value for k in v.keywords}
+                    if "default_factory" in kw and isinstance(kw["default_factory"], ast.Lambda):
+                        fields.append((st.target.id, kw["default_factory"].body))
+                    elif "default" in kw:
+                        fields.append((st.target.id, kw["default"]))
+                    elif not (isinstance(kw.get("init"), ast.Constant) and kw["init"].value is False):
+                        return cls
+                else:
+                    fields.append((st.target.id, v))
+        post = D.methods.get("__post_init__")
+        if post is not None:
+            for st in post.node.body:
+                if isinstance(st, ast.Assign) and len(st.targets) == 1 and self_attr(st.targets[0]):
+                    fields.append((self_attr(st.targets[0]), st.value))
+                elif not (isinstance(st, ast.Expr) and isinstance(st.value, ast.Constant)):
+                    return cls
+    else:
+        di = D.methods.get("__init__")
+        if di is None:
+            return cls
+        params = [a.arg for a in di.node.args.args[1:]]
+        for st in di.node.body:
+            if isinstance(st, ast.Assign) and len(st.targets) == 1 and self_attr(st.targets[0]):
+                fields.append((self_attr(st.targets[0]), st.value))
+            elif not (isinstance(st, ast.Expr) and isinstance(st.value, ast.Constant)):
+                return cls
+    names = {f for f, _ in fields}
+    own_fields = set(stores(ini.node))
+
+    def init_stmts(call, at):
+        bind = dict(zip(params, call.args))
+        bind.update({k.arg: k.value for k in call.keywords if k.arg})
+
+        class B(ast.NodeTransformer):
+            def visit_Name(self, n):
+                return copy.deepcopy(bind[n.id]) if n.id in bind and isinstance(n.ctx, ast.Load) else n
+
+        out = []
+        for f, e in fields:
+            if f in params and f in own_fields:
+                continue  # the holder keeps a copy of a constructor argument the weighting stores itself: one field, already initialised
+            e2 = B().visit(copy.deepcopy(e))
+            a_ = ast.Assign(targets=[ast.Attribute(value=ast.Name(id="self", ctx=ast.Load()), attr=f, ctx=ast.Store())], value=e2)
+            out.append(ast.copy_location(a_, at))
+        return out
+
+    def rewrite(fn_node):
+        node = copy.deepcopy(fn_node)
+        aliases = {a.targets[0].id for a in ast.walk(node) if isinstance(a, ast.Assign) and len(a.targets) == 1 and isinstance(a.targets[0], ast.Name) and self_attr(a.value) == S}
+
+        class R(ast.NodeTransformer):
+            def visit_Attribute(self, n):
+                self.generic_visit(n)
+                base = n.value
+                if n.attr in names and ((isinstance(base, ast.Attribute) and self_attr(base) == S) or (isinstance(base, ast.Name) and base.id in aliases)):
+                    return ast.copy_location(ast.Attribute(value=ast.Name(id="self", ctx=ast.Load()), attr=n.attr, ctx=n.ctx), n)
+                return n
+
+        def splice(stmts):
+            out = []
+            for st in stmts:
+                if isinstance(st, ast.Assign) and len(st.targets) == 1 and self_attr(st.targets[0]) == S and isinstance(st.value, ast.Call):
+                    out.extend(init_stmts(st.value, st))
+                    continue
+                if isinstance(st, ast.Assign) and len(st.targets) == 1 and isinstance(st.targets[0], ast.Name) and st.targets[0].id in aliases and self_attr(st.value) == S:
+                    continue
+                for fld in ("body", "orelse", "finalbody"):
+                    blk = getattr(st, fld, None)
+                    if isinstance(blk, list) and blk and isinstance(blk[0], ast.stmt):
+                        setattr(st, fld, splice(blk))
+                out.append(st)
+            return out
+
+        node.body = splice(node.body)
+        node = R().visit(node)
+        return ast.fix_missing_locations(node)
+
+    methods = {}
+    for mname, f in cls.methods.items():
+        methods[mname] = dataclasses.replace(f, node=rewrite(f.node)) if dataclasses.is_dataclass(f) else f
+    return _ClsView(cls, methods)
 
 
 def check(index, ctx):
@@ -449,6 +583,7 @@ def check(index, ctx):
     outer = index.find_class("torchjd.aggregation.nash_mtl.NashMTL")
     if cls is None or outer is None:
         raise AnalysisError("anchor vanished: NashMTL / _NashMTLWeighting")
+    cls = flatten_state_object(index, cls)  # mutable fields kept in a helper object that __init__ and reset() both re-create are read as fields of the weighting
     need = {}
     for mname in ("__init__", "reset", "forward"):
         r = cls.lookup(mname)
@@ -766,6 +901,14 @@ def check(index, ctx):
     opt = writers_pa[0] if writers_pa else None
     true_nodes = {n for n in fcfg.stmt_nodes() if (st, due_lbl) in fcfg.guards_of(n)}
     false_nodes = {n for n in fcfg.stmt_nodes() if (st, idle_lbl) in fcfg.guards_of(n)}
+    if opt == "forward":
+        # forward itself remembers what the optimiser returned (`self.prvs_alpha = self.<optimiser>(...)`): the store sits on the due branch and the optimiser is the method it calls
+        st_nodes = [n for n in fcfg.stmt_nodes() if n.kind == "stmt" and "prvs_alpha" in stores(n.ast)]
+        called = {self_attr(x.func) for n in st_nodes for e in own_exprs(n) for x in ast.walk(e) if isinstance(x, ast.Call) and self_attr(x.func) in cls.methods}
+        ctx.require(bool(st_nodes) and all(n in true_nodes for n in st_nodes) and len(called) == 1, "R2", "forward: the stored weights are written on the due branch only, from the optimiser's result",
+                    f"`{norm_text(st_nodes[0].ast)[:70] if st_nodes else ''}` on the due branch", "prvs_alpha is stored by forward outside the branch where recomputation is due, or not from one optimiser call",
+                    fwd.loc(st_nodes[0].ast) if st_nodes else fwd.loc())
+        opt = next(iter(called)) if len(called) == 1 else None
     reaches_opt = {opt}
     grew = True
     while grew:  # methods that (transitively) call the optimiser
